@@ -89,7 +89,13 @@ func runSolver(ctx context.Context, s solverSpec, file string, to time.Duration)
 	cmd.Stdout = &out
 	cmd.Stderr = &out
 	cmd.Run()
-	first := strings.TrimSpace(strings.SplitN(out.String(), "\n", 2)[0])
+	first := ""
+	for _, ln := range strings.Split(out.String(), "\n") {
+		if ln = strings.TrimSpace(ln); ln != "" && !strings.HasPrefix(ln, "WARNING") {
+			first = ln
+			break
+		}
+	}
 	st := "error"
 	switch first {
 	case "unsat", "sat", "unknown":
